@@ -374,6 +374,18 @@ def run_connect(job, res):
         except Exception as exc:
             res.violation(f"constructor-raises:{type(exc).__name__}:connect-options", f"{clsname}({kw}) raised {type(exc).__name__}: {exc}", case)
             continue
+        # another gateway of the same kind with other option values is created in the same process before this one
+        # connects: each gateway must use its own settings
+        other = {"timeout": VALUES["timeout"][1 - variant], "reconnect_timeout": VALUES["reconnect_timeout"][1 - variant]}
+        if "Serial" in clsname:
+            other["baud"] = VALUES["baud"][1 - variant]
+        else:
+            other["port"] = VALUES["port"][1 - variant]
+        try:
+            construct(clsname, other, None)
+            res.count("second_gateways_constructed_before_connect")
+        except Exception:
+            pass
         t = gw.tasks.transport
         done = threading.Event()
         if not clsname.startswith("Async"):
